@@ -269,6 +269,7 @@ impl Sys {
             }
             st.insert("pools".into(), Value::Object(m));
             let c = self.q_pm_config();
+            st.insert("pm_buffer".into(), json!(self.has_single_side_buffer()));
             st.insert(
                 "pmcfg".into(),
                 json!({"fc": self.sym_of(c.fee_collector_addr.as_str()), "fm": self.sym_of(c.farm_manager_addr.as_str()),
@@ -321,6 +322,15 @@ impl Sys {
         Value::Object(st)
     }
 
+    /// is the temporary single-asset-deposit bookkeeping record present in the chain store?
+    pub fn has_single_side_buffer(&self) -> bool {
+        use cosmwasm_std::Storage;
+        let needle = b"single_side_liquidity_provision_buffer";
+        self.app
+            .storage()
+            .range(None, None, cosmwasm_std::Order::Ascending)
+            .any(|(k, _)| k.windows(needle.len()).any(|w| w == needle))
+    }
     pub fn farm_json(&self) -> Value {
         let c = self.q_fm_config();
         let cur = self.cur_epoch();
